@@ -4,7 +4,13 @@
      proximal_operator: `if n_const is None: return tensor`  - BEFORE validate_constraints is called: the keywords are not looked at.
      admm: after the first proximal step `if n_const is None: x = solve(UtU^T, UtM^T)^T; return x, x_split, dual_var`  - the
            unconstrained least-squares solution (ls: numerical content), the dual variable untouched; with n_iter_max = 0 the loop
-           body never runs and x_split is unbound as in the constrained case.
+           body never runs and admm returns its start (x, transpose(x) as split variable, the dual variable) as in the constrained case
+           (fix fe4edf7; before it x_split was unbound there and admm raised).
+   admm's own `order` parameter (Default None).  Since fix a5b9e5b admm starts with `if order is None: order = 0` - the mode
+   proximal_operator / validate_constraints pick by their own default - so admm(..., n_const=n) without `order` applies the constraint of
+   mode 0 (before the fix: `constraints[None]`, TypeError).  proximal_operator itself has no such line: an explicit order=None with a
+   number of constraints reaches `constraints[None]` and raises (after the double-constraint scan, which may raise first).
+   order_of / admm_py / proximal_operator_py model exactly that; constrained_parafac always passes the loop variable (corr:C11-static).
    Definitions only. *)
 From Coq Require Import List Arith Bool.
 From TLV Require Import Base.PyList Base.Tensor Model.Constraints.
@@ -22,7 +28,23 @@ Section NConst.
   Definition admm_nc (n_const : option nat) (sp : list (kind * @zspec P)) (order n_iter : nat) (split : M -> M -> M)
              (conv : nat -> M -> M -> M -> bool) (ls : M) (x dual : M) : res (M * M * M) :=
     match n_const with
-    | None => match n_iter with 0 => Err | S _ => Ok (ls, split x dual, dual) end
+    | None => match n_iter with 0 => Ok (x, x, dual) | S _ => Ok (ls, split x dual, dual) end
     | Some n => admm msub madd n_iter split conv (proximal_operator op (zvalidate truthy n sp) order) x dual
+    end.
+
+  (* `if order is None: order = 0` *)
+  Definition order_of (order : option nat) : nat := match order with None => 0 | Some k => k end.
+
+  (* admm(UtM, UtU, x, dual_var, n_iter_max, n_const, order, **keywords) with order as Python passes it: None or an int *)
+  Definition admm_py (n_const : option nat) (sp : list (kind * @zspec P)) (order : option nat) (n_iter : nat) (split : M -> M -> M)
+             (conv : nat -> M -> M -> M -> bool) (ls : M) (x dual : M) : res (M * M * M) :=
+    admm_nc n_const sp (order_of order) n_iter split conv ls x dual.
+
+  (* proximal_operator(tensor, **keywords, n_const, order) with order None or an int: `n_const is None` is tested first *)
+  Definition proximal_operator_py (n_const : option nat) (sp : list (kind * @zspec P)) (order : option nat) (x : M) : res M :=
+    match n_const, order with
+    | None, _ => Ok x
+    | Some _, None => Err                                  (* constraints[None]: TypeError (or the scan's ValueError before it) *)
+    | Some n, Some o => proximal_operator op (zvalidate truthy n sp) o x
     end.
 End NConst.
